@@ -41,12 +41,74 @@ def run(R):
     # stratified design: every (type, method) pair occurs; storage/encoding/dtype vary at random
     design = [(t, m) for t in (None, "image", "segmentation") for m in (None, "average", "majority", "stride")]
     rng.shuffle(design)
+    for i in range(8 if R.tier == "quick" else 64):
+        _slices_workflow(R, rng, i)
     n = 48 if R.tier == "quick" else 600
     for i in range(n):
         t, m = design[i % len(design)]
         # most runs in-process (the command's main() return value is the exit status); sharded runs and
         # every 9th run as real subprocesses
         _one(R, rng, i, t, m, subproc=(i % 9 == 4))
+
+
+def _slices_workflow(R, rng, i):
+    """The slice-stack workflow (generate info, generate-scales-info, slices-to-precomputed, compute-scales)
+    against the all-in-one conversion of the same volume given as a NIfTI file."""
+    from PIL import Image
+    from harness.props.c15 import letter_coord
+    d = os.path.join(R.tmp, f"sl{i}")
+    os.makedirs(d)
+    shape = [rng.randrange(2, 6) for _ in range(3)]
+    shape[rng.randrange(3)] = rng.choice([130, 140])
+    vol = np.frombuffer(rng.randbytes(int(np.prod(shape))), dtype="uint8").reshape(shape)      # [x, y, z], RAS+
+    nii = os.path.join(d, "v.nii")
+    pipeline.write_nifti(nii, vol)
+    code = ["RIA", "LAS", "PSR", "RAS", "LPS", "SAL", "IPR", "ARS"][i % 8]
+    AXn = {"R": 0, "L": 0, "A": 1, "P": 1, "S": 2, "I": 2}
+    w, h, n = shape[AXn[code[0]]], shape[AXn[code[1]]], shape[AXn[code[2]]]
+    stack = np.zeros((n, h, w), dtype="uint8")
+    for x in range(shape[0]):
+        for y in range(shape[1]):
+            for z in range(shape[2]):
+                u = (x, y, z)
+                stack[letter_coord(code[2], shape, u), letter_coord(code[1], shape, u),
+                      letter_coord(code[0], shape, u)] = vol[x, y, z]
+    sdir = os.path.join(d, "slices")
+    os.makedirs(sdir)
+    for k in range(n):
+        Image.fromarray(stack[k], mode="L").save(os.path.join(sdir, f"s{k:04d}.png"))
+    method = rng.choice(["average", "stride", "majority"])
+    A, S = os.path.join(d, "A"), os.path.join(d, "S")
+    case = {"slices_workflow": True, "shape": shape, "orientation": code, "method": method}
+    R.case(case, nontrivial=True)
+    rcA, _so, seA = pipeline.run_script("volume_to_precomputed_pyramid", [nii, A, "--downscaling-method", method],
+                                        inprocess=True)
+    steps = [("volume_to_precomputed", ["--generate-info", nii, S]),
+             ("generate_scales_info", [os.path.join(S, "info_fullres.json"), S]),
+             ("slices_to_precomputed", [sdir, S, "--input-orientation", code]),
+             ("compute_scales", [S, "--downscaling-method", method])]
+    rcs = []
+    for name, args in steps:
+        rc, so, se = pipeline.run_script(name, args, inprocess=True)
+        rcs.append((name, rc, se[-200:] if rc not in (0, 4) else ""))
+    okS = all(rc in (0, 4) for _n, rc, _e in rcs)
+    R.count(f"slices-workflow:{code}:A={'ok' if rcA == 0 else 'fail'}:S={'ok' if okS else 'fail'}")
+    if rcA != 0 or not okS:
+        R.violation("slice-stack workflow or all-in-one conversion failed on a plain 8-bit volume", case,
+                    {"all_in_one": rcA, "steps": rcs})
+        return
+    try:
+        infoA, scA = decode_all(A, {})
+        infoS, scS = decode_all(S, {})
+    except Exception as e:  # noqa: BLE001
+        R.violation("slice-stack workflow: exit status 0 but the output is not readable", case,
+                    {"exc": f"{type(e).__name__}: {e}"[:200]})
+        return
+    why = same(scA, scS)
+    if why:
+        R.violation("the slice-stack workflow and the all-in-one conversion of the same volume decode differently",
+                    case, {"why": why})
+    shutil.rmtree(d, ignore_errors=True)
 
 
 def _one(R, rng, i, dtype_opt, method, subproc):
@@ -222,6 +284,26 @@ def _one(R, rng, i, dtype_opt, method, subproc):
             why = same(scA, sc3)
             if why:
                 R.violation("a refused second all-in-one run changed the destination", case, {"why": why})
+
+    # ---- generate-scales-info a second time, with other options, on the same destination: either it fails and
+    #      leaves the info alone, or the info on disk is the one asked for now
+    if i % 4 == 1:
+        info_before = open(os.path.join(B, "info")).read()
+        g2 = [os.path.join(B, "info_fullres.json"), B, "--target-chunk-size", 32, "--type", "segmentation"]
+        rcg, sog, seg = pipeline.run_script("generate_scales_info", g2, inprocess=inproc)
+        info_after = open(os.path.join(B, "info")).read()
+        R.count("second-generate-scales-info:" + ("rc0" if rcg == 0 else "refused"))
+        if rcg == 0:
+            ja = json.loads(info_after)
+            if ja.get("type") != "segmentation" or ja["scales"][0]["chunk_sizes"][0] != [32, 32, 32]:
+                R.violation("a second generate-scales-info with other options exited 0 but the info on disk is "
+                            "not the one it was asked to produce", case, {"type": ja.get("type"),
+                                                                          "chunk_sizes": ja["scales"][0]["chunk_sizes"]})
+        elif info_after != info_before:
+            R.violation("a refused generate-scales-info changed the info", case, {})
+        if info_after != info_before:
+            with open(os.path.join(B, "info"), "w") as f:
+                f.write(info_before)
 
     # ---- repeat data-writing steps on their own output
     if storage != "sharded":
